@@ -353,6 +353,15 @@ _RULE_EXTRA = {
            "(the file is untouched) and are retried, judged by the same clauses on the flushes that follow; 1 case in 400 (op bulk, tag bulk): batch sizes above 65536 with 65536..65836 hashes of one first byte "
            "(and a few of neighbouring ones) in one flush, into an empty file or between entries flushed before, judged against the sorted set of the added hashes",
 }
+_RULE_EXTRA["C01"] += ("; on 2 in 12 case indices the same table once more with a spilling run size and one spill file cut short in the middle of a field "
+                       "between the sort and the merge (from the Close of the CSV reader; op ingest-torn-spill): refused, or stored completely; history steps run with -n 1..5 in turn")
+_RULE_EXTRA["C02"] = ("; a sixth configuration with 1..5 workers in turn by the case index, history steps with -n 1..5 in turn; on 1 in 6 case indices also a table of "
+                      "fixed-width records ingested in a child process whose RLIMIT_FSIZE cuts every spill file at or near a row boundary (op ids-spill-write-fault): "
+                      "the id of the in-memory ingest, or an error")
+_RULE_EXTRA["C19"] += ("; on 4 in 12 case indices the same table also loaded from a CSV file by SortFile with the key given by column names (tag sortfile; the re-use "
+                       "cases of index 9 too); on 4 in 12 also loaded while, for a stretch of rows, no spill file can be created and the caller carries on after the "
+                       "AddRow errors (op sort-fault): every row whose AddRow returned nil comes out once per key in key order in both outputs, and the fault model "
+                       "(Model/SorterFault.lean) agrees on which calls fail, on the spills and on the rows")
 for _k, _v in _RULE_EXTRA.items():
     PROPS[_k]["rule"] = PROPS[_k]["rule"] + _v
 
